@@ -9,7 +9,8 @@ Workload one session = a link-partner model (rv/ref/c37_link.py, `Engine`) that 
          sequence number, two bits, word of ones / zeros, swapped words, foreign link control word), keeps sending
          into the "ignore" window, answers every LBAD with LRTY (`retry_received` strobe) and re-sends all
          unacknowledged headers (which may be damaged again), sends well-formed headers with a wrong sequence number
-         (previous, next+1, +4, random), and puts other traffic on the tapped stream: idle, bubbles (valid = 0 with
+         (previous, next+1, +4, random), sometimes behaves faultily (re-sends without LRTY first: must stay ignored;
+         spurious LRTY when nothing is outstanding: harmless), and puts other traffic on the tapped stream: idle, bubbles (valid = 0 with
          garbage, also inside headers), foreign link commands, data-packet payloads, and *decoys* (HPSTART with a wrong
          ctrl nibble / valid = 0 / one bit off, followed by a header that would be acceptable).  The protocol layer
          (queue.ready) and the PHY (source.ready) follow always / random / bursty / lazy profiles; directed patterns
